@@ -2,6 +2,7 @@ package h
 
 import (
 	sdk "github.com/cosmos/cosmos-sdk/types"
+	tmbytes "github.com/tendermint/tendermint/libs/bytes"
 
 	service "github.com/irismod/service"
 	"github.com/irismod/service/types"
@@ -43,7 +44,7 @@ func sceneRespond(o ReqOpts) {
 	vf.Assume(msg.ValidateBasic() == nil)
 	balSigner0 := vf.Balance(signer)
 
-	_, err, panicked := vf.Deliver(ctx, service.NewHandler(k), msg)
+	res, err, panicked := vf.Deliver(ctx, service.NewHandler(k), msg)
 	chk("C20", !panicked, "respond-no-panic")
 	vf.Assume(!panicked)
 
@@ -99,6 +100,7 @@ func sceneRespond(o ReqOpts) {
 		chk("C02", balC1.Equal(s.BalC0), "consumer-untouched-on-good-response")
 		chk("C04 C03", vf.All(b0.Deposit.AmountOf(Denom).Equal(s.Binds[0].Deposit), b0.Available == s.Binds[0].Available, b0.DisabledTime.Equal(s.Binds[0].DisabledTime)), "no-slash-on-good-response")
 		chk("C03", vf.All(vf.ModuleBalance(types.DepositAccName).Equal(s.DepAcc0), vf.Supply().Equal(s.Supply0)), "deposits-untouched-on-good-response")
+		chk("C04", len(eventsIn(res, types.EventTypeServiceSlash)) == 0, "no-slash-event-on-good-response")
 	} else {
 		newDep, amt, avail, disabled := SlashRef(k, ctx, s.Binds[0], s.Now)
 		if pre.SuperMode {
@@ -113,6 +115,13 @@ func sceneRespond(o ReqOpts) {
 		chk("C04 C14", vf.All(b0.Available == avail, b0.DisabledTime.Equal(disabled)), "auto-disable-iff-below-minimum")
 		chk("C03 C04", vf.All(s.DepAcc0.Sub(vf.ModuleBalance(types.DepositAccName)).Equal(amt), s.Supply0.Sub(vf.Supply()).Equal(amt)), "slashed-coins-burned")
 		chk("C14", vf.Implies(b0.Available, b0.Deposit.AmountOf(Denom).GTE(MinDepositRef(k, ctx, s.Binds[0].Pricing.Price.AmountOf(Denom)))), "available-holds-minimum")
+		sl := eventsIn(res, types.EventTypeServiceSlash)
+		chk("C04", len(sl) == 1, "one-slash-event-on-malformed-output")
+		if len(sl) == 1 {
+			er, _ := attrOf(sl[0], types.AttributeKeyRequestID)
+			ep, _ := attrOf(sl[0], types.AttributeKeyProvider)
+			chk("C04", vf.And(er == tmbytes.HexBytes(rid).String(), ep == s.Provs[0].String()), "slash-event-names-the-failed-request-and-its-provider")
+		}
 	}
 	// ---- records
 	chk("C08 C02 C16 C01 C04 C11", vf.All(!k.IsRequestActive(ctx, rid), !vf.Store(ctx).Has(types.GetActiveRequestKey(Svc, s.Provs[0], s.ExpH, rid))), "marker-removed-so-no-second-settlement")
